@@ -3,6 +3,7 @@ package main
 import (
 	"fmt"
 	"go/token"
+	"go/types"
 	"regexp"
 	"regexp/syntax"
 	"strconv"
@@ -136,6 +137,52 @@ func runC07(c *Ctx) {
 	}
 	if nErr < 3 {
 		c.undecided(rule3, "event String methods using Error()", "-", fmt.Sprintf("%d found", nErr))
+	}
+	// nothing of error type, and nothing derived from an Error field other than
+	// through Scrub, is formatted into the event text (fmt calls Error() itself)
+	errIface := types.Universe.Lookup("error").Type().Underlying().(*types.Interface)
+	for _, fn := range p.FnsIn("common/event") {
+		if fn.Name() != "String" {
+			continue
+		}
+		bad := ""
+		for _, ci := range callsIn(fn) {
+			n := calleeName(ci)
+			if !strings.HasPrefix(n, "fmt.") {
+				continue
+			}
+			for _, a := range ci.Common().Args {
+				sl, ok := a.(*ssa.Slice)
+				if !ok {
+					continue
+				}
+				for _, el := range subStores(sl.X) {
+					bt := boxedType(el)
+					if bt != nil && types.Implements(bt, errIface) {
+						bad = "a value of error type (" + shortType(bt) + ") is formatted directly"
+					}
+					if mi, okm := el.(*ssa.MakeInterface); okm {
+						if _, isIface := mi.X.Type().Underlying().(*types.Interface); isIface && types.Implements(mi.X.Type(), errIface) {
+							bad = "an error value is formatted directly"
+						}
+					}
+					if ct, okc := el.(*ssa.ChangeInterface); okc && types.Implements(ct.X.Type(), errIface) {
+						bad = "an error value is formatted directly"
+					}
+					raw := !sanitisedOnly(el, func(v ssa.Value) bool {
+						_, f, okf := fieldLoad(v)
+						return okf && f.Name() == "Error"
+					}, func(v ssa.Value) bool {
+						cc, _, okc := callResult(v)
+						return okc && calleeName(cc) == "common/safelog.Scrub"
+					})
+					if raw {
+						bad = "text derived from the event's Error field reaches the format call without passing safelog.Scrub"
+					}
+				}
+			}
+		}
+		c.check(bad == "", rule3, p.FnName(fn)+" formats no unscrubbed error", p.Pos(fn.Pos()), "", bad+": fmt calls Error() on it, so peer addresses in the error text reach the PT log, which is outside the LogScrubber")
 	}
 	nPT := 0
 	for _, fn := range p.FnsIn("client") {
